@@ -169,7 +169,7 @@ Definition octets_to_bits (b: bytes) : list bool := concat (map (N_to_bits 8) b)
    broken object (len() raises ValueError) *)
 Definition bits_of_octets (b: bytes) (padding: N) : res (list bool) :=
   let total := (8 * length b)%nat in
-  if Nat.ltb total (N.to_nat padding) then Err (ECrash ValueError)
+  if Nat.ltb total (N.to_nat padding) then Err EMalformed       (* unused bits but no octets *)
   else Ok (firstn (total - N.to_nat padding) (octets_to_bits b)).
 
 (* sub-identifiers of an OID content, as the loop in ObjectIdentifierPayloadDecoder reads them *)
@@ -272,52 +272,59 @@ Section Dec.
   Variable c : codec.
   (* the recursive entry point SingleItemDecoder.__call__(substrate, asn1Spec, tagSet, length, state,
      allowEoo=, substrateFun=):  spec, accumulated tag set, Some len = resume at stGetValueDecoder *)
-  Variable rec : spec -> tagset -> option (option nat) -> bool -> bool -> proc dval.
+  Variable rec : spec -> tagset -> option (option N) -> bool -> bool -> proc dval.
   Variable loopfuel : nat.
+
+  (* readFromStream(substrate, n) for a length taken from the wire: a read longer than the whole
+     input (loopfuel bounds its length) can never be satisfied, whatever its exact size; asking
+     for loopfuel + 1 octets is then the same thing and keeps unary numbers small *)
+  Definition read_len (n: N) : proc bytes :=
+    if N.ltb index_max n then Raise EMalformed       (* read() refuses the size: 'Cannot read ... octets at once' *)
+    else readN (N.to_nat (N.min n (N.of_nat (S loopfuel)))).
 
   Definition spec_ty (sp: spec) : option ty := match sp with STy T => Some T | _ => None end.
 
   (* --- simple payload decoders: valueDecoder(substrate, asn1Spec, tagSet, length) --- *)
 
-  Definition dec_integer (sp: option ty) (proto: ty) (ts: tagset) (len: nat) : proc dval :=
+  Definition dec_integer (sp: option ty) (proto: ty) (ts: tagset) (len: N) : proc dval :=
     if negb (tag0_simple ts) then Raise EMalformed else
-    let! b := readN len in create sp proto ts (VInt (from_bytes_signed b)).
+    let! b := read_len len in create sp proto ts (VInt (from_bytes_signed b)).
 
-  Definition dec_bool_cer (sp: option ty) (ts: tagset) (len: nat) : proc dval :=
-    if negb (Nat.eqb len 1) then Raise EMalformed else
-    let! b := readN len in
+  Definition dec_bool_cer (sp: option ty) (ts: tagset) (len: N) : proc dval :=
+    if negb (N.eqb len 1) then Raise EMalformed else
+    let! b := read_len len in
     match b with
     | [255] => create sp TBool ts (VInt 1)
     | [0] => create sp TBool ts (VInt 0)
     | _ => Raise EMalformed
     end.
 
-  Definition dec_null (sp: option ty) (ts: tagset) (len: nat) : proc dval :=
+  Definition dec_null (sp: option ty) (ts: tagset) (len: N) : proc dval :=
     if negb (tag0_simple ts) then Raise EMalformed else
-    let! b := readN len in
+    let! b := read_len len in
     match b with [] => create sp TNull ts VNull | _ => Raise EMalformed end.
 
-  Definition dec_oid_v (sp: option ty) (ts: tagset) (len: nat) : proc dval :=
+  Definition dec_oid_v (sp: option ty) (ts: tagset) (len: N) : proc dval :=
     if negb (tag0_simple ts) then Raise EMalformed else
-    let! b := readN len in let! a := lift (dec_oid b) in create sp TOid ts (VOid a).
+    let! b := read_len len in let! a := lift (dec_oid b) in create sp TOid ts (VOid a).
 
-  Definition dec_real_v (sp: option ty) (ts: tagset) (len: nat) : proc dval :=
+  Definition dec_real_v (sp: option ty) (ts: tagset) (len: N) : proc dval :=
     if negb (tag0_simple ts) then Raise EMalformed else
-    let! b := readN len in let! r := lift (dec_real b) in create sp TReal ts (VReal r).
+    let! b := read_len len in let! r := lift (dec_real b) in create sp TReal ts (VReal r).
 
   (* substrateCollector: readFromStream(substrate, length); length -1 reads whatever is there *)
-  Definition collector (len: option nat) : proc dval :=
+  Definition collector (len: option N) : proc dval :=
     match len with
-    | Some n => let! b := readN n in Ret (DRaw b)
+    | Some n => let! b := read_len n in Ret (DRaw b)
     | None => let! b := readall in Ret (DRaw b)
     end.
 
   (* one fragment of a constructed string: decodeFun(substrate, protoComponent, substrateFun=collector) *)
   Definition fragment (proto: ty) (allow_eoo: bool) : proc dval := rec (STy proto) [] None allow_eoo true.
 
-  Definition dec_octets (proto: ty) (fl: dec_flags) (sp: option ty) (ts: tagset) (len: nat) (sfun: bool) : proc dval :=
+  Definition dec_octets (proto: ty) (fl: dec_flags) (sp: option ty) (ts: tagset) (len: N) (sfun: bool) : proc dval :=
     (* the only substrateFun modelled is the fragment collector, which this decoder ignores *)
-    if tag0_simple ts then let! b := readN len in create sp proto ts (VOcts b) else
+    if tag0_simple ts then let! b := read_len len in create sp proto ts (VOcts b) else
     if negb (df_constructed fl) then Raise EMalformed else
     let! start := tell in
     (fix loop (n: nat) (acc: bytes) : proc dval :=
@@ -325,7 +332,7 @@ Section Dec.
        | O => Raise EOutOfFuel
        | S n' =>
            let! p := tell in
-           if Nat.ltb (p - start) len then
+           if N.ltb (N.of_nat (p - start)) len then
              let! f := fragment proto false in
              match f with
              | DRaw b => loop n' (acc ++ b)
@@ -351,20 +358,20 @@ Section Dec.
 
   Definition add_bits_fragment (acc: list bool) (f: dval) : proc (list bool) :=
     match f with
-    | DRaw [] => Raise (ECrash IndexError)
+    | DRaw [] => Raise EMalformed                                  (* 'Empty BIT STRING fragment' *)
     | DRaw (tb :: r) =>
         if N.ltb 7 tb then Raise EMalformed else
         let! bs := lift (bits_of_octets r tb) in Ret (acc ++ bs)
     | _ => Raise (ECrash TypeError)
     end.
 
-  Definition dec_bits (fl: dec_flags) (sp: option ty) (ts: tagset) (len: nat) (sfun: bool) : proc dval :=
+  Definition dec_bits (fl: dec_flags) (sp: option ty) (ts: tagset) (len: N) (sfun: bool) : proc dval :=
     if sfun then collector (Some len) else
-    if Nat.eqb len 0 then Raise EMalformed else
+    if N.eqb len 0 then Raise EMalformed else
     if tag0_simple ts then
       let! tb := read1 in
       if N.ltb 7 tb then Raise EMalformed else
-      let! b := readN (len - 1) in let! bs := lift (bits_of_octets b tb) in create sp TBits ts (VBits bs)
+      let! b := read_len (len - 1) in let! bs := lift (bits_of_octets b tb) in create sp TBits ts (VBits bs)
     else
     if negb (df_constructed fl) then Raise EMalformed else
     let! start := tell in
@@ -373,7 +380,7 @@ Section Dec.
        | O => Raise EOutOfFuel
        | S n' =>
            let! p := tell in
-           if Nat.ltb (p - start) len then
+           if N.ltb (N.of_nat (p - start)) len then
              let! f := fragment TBits false in let! acc' := add_bits_fragment acc f in loop n' acc'
            else create sp TBits ts (VBits acc)
        end) loopfuel [].
@@ -392,10 +399,10 @@ Section Dec.
        end) loopfuel [].
 
   (* --- ANY --- *)
-  Definition dec_any (sp: option ty) (ts: tagset) (len: nat) (sfun: bool) : proc dval :=
+  Definition dec_any (sp: option ty) (ts: tagset) (len: N) (sfun: bool) : proc dval :=
     let untagged := match sp with None => true | Some T => negb (tagset_eqb ts (tagset_of' T)) end in
-    let! len' := (if untagged then (let! m := getmark in let! p := tell in SeekBack (p - m) (Ret (len + (p - m))%nat)) else Ret len) in
-    let! b := readN len' in
+    let! len' := (if untagged then (let! m := getmark in let! p := tell in SeekBack (p - m) (Ret (len + N.of_nat (p - m)))) else Ret len) in
+    let! b := read_len len' in
     if sfun then Ret (DRaw b) else create sp TAny ts (VAny b).
 
   Definition dec_any_indef (sp: option ty) (ts: tagset) (sfun: bool) : proc dval :=
@@ -459,7 +466,7 @@ Section Dec.
     forallb (fun pv => match fst (fst pv), snd pv with Req, None => false | _, _ => true end) (combine fs vs).
 
   (* SEQUENCE / SET guided by a type; [len] = Some n definite, None indefinite *)
-  Definition dec_record (T: ty) (fs: list (presence * ty)) (is_set: bool) (len: option nat) : proc dval :=
+  Definition dec_record (T: ty) (fs: list (presence * ty)) (is_set: bool) (len: option N) : proc dval :=
     let deterministic := negb is_set && forallb (fun f => is_req (fst f)) fs in
     let no_fields := match fs with [] => true | _ => false end in
     let! start := tell in
@@ -468,7 +475,7 @@ Section Dec.
        | O => Raise EOutOfFuel
        | S n' =>
            let! p := tell in
-           let continue_ := match len with Some l => Nat.ltb (p - start) l | None => true end in
+           let continue_ := match len with Some l => N.ltb (N.of_nat (p - start)) l | None => true end in
            if negb continue_ then
              (if no_fields then Ret (DV T (VRec []))
               else if required_seen fs vs then Ret (DV T (VRec vs)) else Raise EMalformed)
@@ -493,6 +500,7 @@ Section Dec.
                             else if required_seen fs vs then Ret (DV T (VRec vs)) else Raise EMalformed)
                  | DV Tc vc =>
                      if no_fields then Raise EUnmodelled     (* schemaless members under a member-less spec *)
+                     else if negb is_set && Nat.leb (length fs) idx then Raise EMalformed   (* Excessive components *)
                      else
                        let! i := lift (seq_position fs is_set deterministic idx Tc vc) in
                        if Nat.leb (length fs) i then Raise (ECrash IndexError)
@@ -514,14 +522,14 @@ Section Dec.
        end) loopfuel 0%nat (map (fun _ => None) fs) 0%nat.
 
   (* SEQUENCE OF / SET OF guided by a type *)
-  Definition dec_listof (T: ty) (t: ty) (len: option nat) : proc dval :=
+  Definition dec_listof (T: ty) (t: ty) (len: option N) : proc dval :=
     let! start := tell in
     (fix loop (n: nat) (acc: list val) : proc dval :=
        match n with
        | O => Raise EOutOfFuel
        | S n' =>
            let! p := tell in
-           let continue_ := match len with Some l => Nat.ltb (p - start) l | None => true end in
+           let continue_ := match len with Some l => N.ltb (N.of_nat (p - start)) l | None => true end in
            if negb continue_ then Ret (DV T (VList acc))
            else
              let! d := rec (STy t) [] None (match len with None => true | Some _ => false end) false in
@@ -534,7 +542,7 @@ Section Dec.
        end) loopfuel [].
 
   (* _decodeComponentsSchemaless: guess SEQUENCE vs SEQUENCE OF from the members' tag sets *)
-  Definition dec_schemaless (is_set: bool) (ts: tagset) (len: option nat) : proc dval :=
+  Definition dec_schemaless (is_set: bool) (ts: tagset) (len: option N) : proc dval :=
     let! start := tell in
     (fix loop (n: nat) (acc: list (ty * val)) : proc dval :=
        let finish :=
@@ -552,7 +560,7 @@ Section Dec.
        | O => Raise EOutOfFuel
        | S n' =>
            let! p := tell in
-           let continue_ := match len with Some l => Nat.ltb p (start + l) | None => true end in
+           let continue_ := match len with Some l => N.ltb (N.of_nat p) (N.of_nat start + l) | None => true end in
            if negb continue_ then finish
            else
              let! d := rec SNone [] None (match len with None => true | Some _ => false end) false in
@@ -564,7 +572,7 @@ Section Dec.
        end) loopfuel [].
 
   (* CHOICE guided by a type *)
-  Definition dec_choice (T: ty) (alts: list ty) (ts: tagset) (len: option nat) : proc dval :=
+  Definition dec_choice (T: ty) (alts: list ty) (ts: tagset) (len: option N) : proc dval :=
     let m := fields_tagmap true alts in
     let tagged := tagset_eqb (tagset_of' T) ts in
     let place (d: dval) : proc dval :=
@@ -593,7 +601,7 @@ Section Dec.
     end.
 
   (* RawPayloadDecoder: an explicit tag, or whatever substrateFun wants *)
-  Definition dec_raw (sp: spec) (ts: tagset) (len: option nat) (sfun: bool) : proc dval :=
+  Definition dec_raw (sp: spec) (ts: tagset) (len: option N) (sfun: bool) : proc dval :=
     if sfun then collector len else
     match len with
     | Some _ => rec sp ts None false false
@@ -611,7 +619,7 @@ Section Dec.
     end.
 
   (* concreteDecoder.valueDecoder / indefLenValueDecoder *)
-  Definition dec_value (cd: dec_codec) (fl: dec_flags) (sp: option ty) (ts: tagset) (len: option nat) (sfun: bool) : proc dval :=
+  Definition dec_value (cd: dec_codec) (fl: dec_flags) (sp: option ty) (ts: tagset) (len: option N) (sfun: bool) : proc dval :=
     let proto_str := match sp with
                      | Some T => (match base_of T with TStr n => TStr n | _ => TOcts end)
                      | None => match df_proto fl with Some (KStr n) => TStr n | _ => TOcts end end in
@@ -670,15 +678,15 @@ Section Dec.
          end) loopfuel 0
     else Ret (mkTag cl f n).
 
-  Definition read_length : proc (option nat) :=
+  Definition read_length : proc (option N) :=
     let! o := read1 in
-    if N.ltb o 128 then Ret (Some (N.to_nat o))
+    if N.ltb o 128 then Ret (Some o)
     else if N.eqb o 128 then
       (if support_indef c then Ret None else Raise EMalformed)
-    else let! b := readN (N.to_nat (N.land o 127)) in Ret (Some (N.to_nat (be_num 0 b))).
+    else let! b := readN (N.to_nat (N.land o 127)) in Ret (Some (be_num 0 b)).
 
   (* stGetValueDecoder ... stDecodeValue / stTryAsExplicitTag / stErrorCondition *)
-  Definition dispatch (sp: spec) (ts: tagset) (len: option nat) (sfun: bool) : proc dval :=
+  Definition dispatch (sp: spec) (ts: tagset) (len: option N) (sfun: bool) : proc dval :=
     let try_explicit :=
       match ts with
       | t :: _ => if tcon t && negb (cls_eqb (tcls t) Univ) then Some (dec_raw sp ts len sfun) else None
@@ -688,7 +696,7 @@ Section Dec.
       match len with
       | None => k
       | Some l => let! p0 := tell in let! v := k in let! p1 := tell in
-                  if Nat.eqb (p1 - p0) l then Ret v else Raise EMalformed
+                  if N.eqb (N.of_nat (p1 - p0)) l then Ret v else Raise EMalformed
       end in
     let fail := match try_explicit with Some k => run_value k | None => Raise EMalformed end in
     match sp with
@@ -719,7 +727,7 @@ Section Dec.
         end
     end.
 
-  Definition dec_body (sp: spec) (acc: tagset) (resume: option (option nat)) (allow_eoo sfun: bool) : proc dval :=
+  Definition dec_body (sp: spec) (acc: tagset) (resume: option (option N)) (allow_eoo sfun: bool) : proc dval :=
     let main :=
       Mark (
       match resume with
@@ -736,7 +744,7 @@ Section Dec.
 
 End Dec.
 
-Fixpoint dec_call (c: codec) (fuel: nat) : spec -> tagset -> option (option nat) -> bool -> bool -> proc dval :=
+Fixpoint dec_call (c: codec) (fuel: nat) : spec -> tagset -> option (option N) -> bool -> bool -> proc dval :=
   match fuel with
   | O => fun _ _ _ _ _ => Raise EOutOfFuel
   | S f => dec_body c (dec_call c f) f
